@@ -483,6 +483,21 @@ def judge(line, impl, model):
                 out.append(("violation", "after %d add_column and %d add_group calls the schema has %s elements / %s columns" % (n_col, n_el - 1 - n_col, a0.get("n"), a0.get("k"))))
             if a0.get("rootnc") != str(n_el - 1):
                 out.append(("violation", "the root element counts %s children, %d elements were added under it" % (a0.get("rootnc"), n_el - 1)))
+        # every element added under the root (column or group): leaf flag, repetition and the textbook levels of a top-level node
+        if len(got_rets) == len(want_rets) and all(w is None or g == w for g, w in zip(got_rets, want_rets)):
+            Eb = [x.split("/") for x in lst(a0.get("E"))]
+            i_ = 0
+            for op, g_ in zip(lst(toks[1]), got_rets):
+                f_ = op.split(":")
+                if f_[0] == "g" and g_ == "-1":
+                    continue                     # refused (parent other than the root): no element
+                i_ += 1
+                rp = f_[4] if f_[0] == "c" else f_[2]
+                want_e = ["1" if f_[0] == "c" else "0", rp, "1" if rp in ("1", "2") else "0", "1" if rp == "2" else "0"]
+                if i_ < len(Eb) and len(Eb[i_]) == 8 and [Eb[i_][1], Eb[i_][5], Eb[i_][6], Eb[i_][7]] != want_e:
+                    out.append(("violation", "builder element %d (%s): is_leaf/repetition/max_def/max_rep %s, a top-level node with that repetition has %s"
+                                % (i_, "column" if f_[0] == "c" else "group", [Eb[i_][1], Eb[i_][5], Eb[i_][6], Eb[i_][7]], want_e)))
+                    break
     if is_builder and " RT=" in impl:
         impl, _, rt = impl.rpartition(" RT=")
         if rt != "same":
